@@ -221,6 +221,11 @@ func genC08(e *emitter, r *rng, thorough bool) {
 			e.emit("parse.pubx", xkLine("str:"+hx([]byte(serXKey(verPub, 1, fp, 5, chain, kd))), []string{"c0:1", "n0"}))
 		}
 	}
+	// public keys whose X puts the field code into rare representations (see rarePoints): import, derive, neuter
+	for _, p := range rarePoints(r, 2) {
+		kd := pubOf(p.x, p.y).SerialiseCompressed()
+		e.emit("parse.rarepub", xkLine("str:"+hx([]byte(serXKey(verPub, 1, fp, 5, chain, kd))), []string{"c0:1", "t0", "c2:1"}))
+	}
 	// wrong lengths, wrong checksums, unknown versions
 	m, _ := bip32.NewMaster(r.bytes(32), nets[0].params)
 	raw := base58.Decode(m.String())
